@@ -53,11 +53,11 @@ pub enum Phase {
 
 #[derive(Clone, Copy, Debug, PartialEq, Eq, Hash, Default)]
 pub struct Snapshot {
-    /// escrowed amounts (A, B) right after creation
-    escrow: (u64, u64),
+    /// escrowed amounts (A, B, market token of market 0, market token of market 1) right after creation
+    escrow: [u64; 4],
 }
 
-const NSLOT: usize = 7;
+const NSLOT: usize = 9;
 const NPOS: usize = 3;
 
 #[derive(Clone)]
@@ -80,8 +80,10 @@ pub struct Slot {
     /// increase: collateral paid in; decrease: collateral withdrawn
     collateral: u64,
     size: u128,
-    /// an acceptable price no execution can meet: the execution fails softly
+    /// an acceptable price (order) or a minimum output (shift) no execution can meet: the execution fails softly
     unreachable_price: bool,
+    /// a shift of `collateral` market tokens from market `market` into the other market instead of an order
+    shift: bool,
     nonce: [u8; 32],
 }
 
@@ -137,26 +139,29 @@ impl Perp {
         }
     }
     fn order_account(&self, s: &Slot) -> Pubkey {
-        self.w.order_pda(&s.owner, &s.nonce)
+        if s.shift { self.w.shift_pda(&s.owner, &s.nonce) } else { self.w.order_pda(&s.owner, &s.nonce) }
     }
     fn phase_on_chain(&self, db: &Db, s: &Slot) -> Phase {
         let k = self.order_account(s);
         if !db.exists(&k) {
             return Phase::Absent;
         }
-        match db.pod::<Order>(&k).and_then(|d| d.header().action_state().ok()) {
+        let st = if s.shift { db.pod::<gmsol_store::states::Shift>(&k).and_then(|d| d.header().action_state().ok()) } else { db.pod::<Order>(&k).and_then(|d| d.header().action_state().ok()) };
+        match st {
             Some(ActionState::Pending) => Phase::Pending,
             Some(ActionState::Completed) => Phase::Completed,
             Some(ActionState::Cancelled) => Phase::Cancelled,
             _ => Phase::Absent,
         }
     }
-    fn holdings(&self, db: &Db, owner: &Pubkey) -> (u64, u64, u64) {
-        (token_amount(db, &ata(owner, &self.w.a)), token_amount(db, &ata(owner, &self.w.b)), db.get(owner).lamports)
+    fn tokens(&self, db: &Db, who: &Pubkey) -> [u64; 4] {
+        [token_amount(db, &ata(who, &self.w.a)), token_amount(db, &ata(who, &self.w.b)), token_amount(db, &ata(who, &self.w.m1.market_token)), token_amount(db, &ata(who, &self.w.m2.market_token))]
     }
-    fn escrow(&self, db: &Db, s: &Slot) -> (u64, u64) {
-        let acc = self.order_account(s);
-        (token_amount(db, &ata(&acc, &self.w.a)), token_amount(db, &ata(&acc, &self.w.b)))
+    fn holdings(&self, db: &Db, owner: &Pubkey) -> ([u64; 4], u64) {
+        (self.tokens(db, owner), db.get(owner).lamports)
+    }
+    fn escrow(&self, db: &Db, s: &Slot) -> [u64; 4] {
+        self.tokens(db, &self.order_account(s))
     }
 
     /// C22: recorded balances cover pools and collateral; the collateral and open-interest pools equal what the
@@ -248,7 +253,9 @@ impl Machine for Perp {
                     let _ = w.prepare_position(&mut n.db, m, sl.owner, sl.side);
                 }
                 let unreachable = sl.unreachable_price.then_some(if sl.side.is_long == sl.increase { 1u128 } else { u128::MAX / 4 });
-                let r = if sl.increase {
+                let r = if sl.shift {
+                    w.create_shift(&mut n.db, m, self.markets()[1 - sl.market], sl.owner, sl.nonce, sl.collateral, if sl.unreachable_price { u64::MAX } else { 0 })
+                } else if sl.increase {
                     w.create_increase_with(&mut n.db, m, sl.owner, sl.receiver, sl.nonce, sl.side, sl.collateral, sl.size, unreachable)
                 } else {
                     w.create_decrease_with(&mut n.db, m, sl.owner, sl.receiver, sl.nonce, sl.side, sl.collateral, sl.size, unreachable)
@@ -262,13 +269,19 @@ impl Machine for Perp {
                 let sl = &self.slots[i];
                 let m = self.markets()[sl.market];
                 let by = self.key_of(sl.owner, who);
-                Some(if sl.increase { w.execute_increase(&mut n.db, m, sl.owner, sl.nonce, sl.side, by, false) } else { w.execute_decrease(&mut n.db, m, sl.owner, sl.nonce, sl.side, by, false) })
+                Some(if sl.shift {
+                    w.execute_shift(&mut n.db, m, self.markets()[1 - sl.market], sl.owner, sl.nonce, by, false)
+                } else if sl.increase {
+                    w.execute_increase(&mut n.db, m, sl.owner, sl.nonce, sl.side, by, false)
+                } else {
+                    w.execute_decrease(&mut n.db, m, sl.owner, sl.nonce, sl.side, by, false)
+                })
             }
             Act::Close(i, who) => {
                 let sl = &self.slots[i];
                 let m = self.markets()[sl.market];
                 let by = self.key_of(sl.owner, who);
-                Some(w.close_order(&mut n.db, m, sl.owner, sl.receiver, sl.nonce, sl.side, sl.increase, by))
+                Some(if sl.shift { w.close_shift(&mut n.db, m, self.markets()[1 - sl.market], sl.owner, sl.nonce, by) } else { w.close_order(&mut n.db, m, sl.owner, sl.receiver, sl.nonce, sl.side, sl.increase, by) })
             }
             Act::Price(k) => {
                 n.price = k;
@@ -388,15 +401,16 @@ impl Machine for Perp {
                         let (before, after) = (self.holdings(&s.db, &sl.owner), self.holdings(&n.db, &sl.owner));
                         let (rbefore, rafter) = (self.holdings(&s.db, &sl.receiver), self.holdings(&n.db, &sl.receiver));
                         let esc = self.escrow(&s.db, sl);
-                        // the input funds of an order that did not complete go back to the owner; what a completed order
+                        // the input funds of an action that did not complete go back to the owner; what a completed one
                         // produced goes to the receiver
+                        let add = |x: [u64; 4], y: [u64; 4]| [x[0] + y[0], x[1] + y[1], x[2] + y[2], x[3] + y[3]];
                         let to_owner = s.phase[i] != Phase::Completed || sl.receiver == sl.owner;
                         let ok = if sl.receiver == sl.owner {
-                            (after.0, after.1) == (before.0 + esc.0, before.1 + esc.1)
+                            after.0 == add(before.0, esc)
                         } else if to_owner {
-                            (after.0, after.1) == (before.0 + esc.0, before.1 + esc.1) && (rafter.0, rafter.1) == (rbefore.0, rbefore.1)
+                            after.0 == add(before.0, esc) && rafter.0 == rbefore.0
                         } else {
-                            (rafter.0, rafter.1) == (rbefore.0 + esc.0, rbefore.1 + esc.1) && (after.0, after.1) == (before.0, before.1)
+                            rafter.0 == add(rbefore.0, esc) && after.0 == before.0
                         };
                         if !ok {
                             out.fail("C23/escrow_not_returned", format!("{a:?} ({:?}): escrow {esc:?}; owner held {before:?} and now holds {after:?}; receiver held {rbefore:?} and now holds {rafter:?}", s.phase[i]));
@@ -404,16 +418,16 @@ impl Machine for Perp {
                         if matches!(s.phase[i], Phase::Pending | Phase::Cancelled) && esc != s.snap[i].escrow {
                             out.fail("C23/escrow_not_returned", format!("{a:?} ({:?}): escrow at close {esc:?}, at creation {:?}", s.phase[i], s.snap[i].escrow));
                         }
-                        if s.phase[i] == Phase::Completed && sl.increase && esc != (0, 0) && s.snap[i].escrow == esc {
+                        if s.phase[i] == Phase::Completed && (sl.increase || sl.shift) && esc != [0; 4] && s.snap[i].escrow == esc {
                             out.fail("C23/completed_action_escrow_wrong", format!("{a:?}: a completed increase still holds its collateral {esc:?}"));
                         }
                         let action_lamports = s.db.get(&self.order_account(sl)).lamports;
-                        let new_atas = [ata(&sl.owner, &w.a), ata(&sl.owner, &w.b)].iter().filter(|k| !s.db.exists(k) && n.db.exists(k)).count() as u64;
+                        let new_atas = [ata(&sl.owner, &w.a), ata(&sl.owner, &w.b), ata(&sl.owner, &w.m1.market_token), ata(&sl.owner, &w.m2.market_token)].iter().filter(|k| !s.db.exists(k) && n.db.exists(k)).count() as u64;
                         // when a keeper closes, the rent and fee still go to the owner / rent receiver
-                        if who == Who::Owner && (after.2 as i128) < before.2 as i128 + action_lamports as i128 - (new_atas * 2_039_280) as i128 {
-                            out.fail("C23/execution_fee_not_refunded", format!("{a:?}: owner lamports {} -> {}, the order account held {action_lamports}", before.2, after.2));
+                        if who == Who::Owner && (after.1 as i128) < before.1 as i128 + action_lamports as i128 - (new_atas * 2_039_280) as i128 {
+                            out.fail("C23/execution_fee_not_refunded", format!("{a:?}: owner lamports {} -> {}, the action account held {action_lamports}", before.1, after.1));
                         }
-                        if self.escrow(&n.db, sl) != (0, 0) {
+                        if self.escrow(&n.db, sl) != [0; 4] {
                             out.fail("C23/tokens_left_in_escrow_after_close", format!("{a:?}: {:?}", self.escrow(&n.db, sl)));
                         }
                     }
@@ -447,17 +461,21 @@ pub fn build(props: u32, th: bool) -> (Perp, St) {
     let short_a = Side { is_long: false, collateral_long: true };
     let positions = vec![(w.user, 0, long_b), (w.user2, 0, short_a), (w.user, 1, long_b)];
     let slots = vec![
-        Slot { owner: w.user, receiver: w.user, market: 0, side: long_b, increase: true, collateral: 120_000_000, size: 300 * UNIT, unreachable_price: false, nonce: [0x11; 32] },
-        Slot { owner: w.user, receiver: w.user, market: 0, side: long_b, increase: false, collateral: 0, size: 300 * UNIT, unreachable_price: false, nonce: [0x12; 32] },
-        Slot { owner: w.user2, receiver: w.user2, market: 0, side: short_a, increase: true, collateral: 10_000_000, size: 400 * UNIT, unreachable_price: false, nonce: [0x13; 32] },
-        Slot { owner: w.user, receiver: w.stranger, market: 0, side: long_b, increase: false, collateral: 10_000_000, size: 100 * UNIT, unreachable_price: false, nonce: [0x14; 32] },
-        Slot { owner: w.user, receiver: w.stranger, market: 0, side: long_b, increase: true, collateral: 50_000_000, size: 100 * UNIT, unreachable_price: true, nonce: [0x15; 32] },
-        Slot { owner: w.user2, receiver: w.user2, market: 0, side: short_a, increase: false, collateral: 0, size: 400 * UNIT, unreachable_price: false, nonce: [0x16; 32] },
-        Slot { owner: w.user, receiver: w.user, market: 1, side: long_b, increase: true, collateral: 60_000_000, size: 200 * UNIT, unreachable_price: false, nonce: [0x17; 32] },
+        Slot { owner: w.user, receiver: w.user, market: 0, side: long_b, increase: true, collateral: 120_000_000, size: 300 * UNIT, unreachable_price: false, shift: false, nonce: [0x11; 32] },
+        Slot { owner: w.user, receiver: w.user, market: 0, side: long_b, increase: false, collateral: 0, size: 300 * UNIT, unreachable_price: false, shift: false, nonce: [0x12; 32] },
+        Slot { owner: w.user2, receiver: w.user2, market: 0, side: short_a, increase: true, collateral: 10_000_000, size: 400 * UNIT, unreachable_price: false, shift: false, nonce: [0x13; 32] },
+        Slot { owner: w.user, receiver: w.stranger, market: 0, side: long_b, increase: false, collateral: 10_000_000, size: 100 * UNIT, unreachable_price: false, shift: false, nonce: [0x14; 32] },
+        Slot { owner: w.user, receiver: w.stranger, market: 0, side: long_b, increase: true, collateral: 50_000_000, size: 100 * UNIT, unreachable_price: true, shift: false, nonce: [0x15; 32] },
+        Slot { owner: w.user2, receiver: w.user2, market: 0, side: short_a, increase: false, collateral: 0, size: 400 * UNIT, unreachable_price: false, shift: false, nonce: [0x16; 32] },
+        Slot { owner: w.user, receiver: w.user, market: 1, side: long_b, increase: true, collateral: 60_000_000, size: 200 * UNIT, unreachable_price: false, shift: false, nonce: [0x17; 32] },
+        // shifts of the liquidity provider's market tokens between the two markets (one with an unreachable minimum)
+        Slot { owner: w.user2, receiver: w.user2, market: 0, side: long_b, increase: false, collateral: 900_000_000_000, size: 0, unreachable_price: false, shift: true, nonce: [0x18; 32] },
+        Slot { owner: w.user2, receiver: w.user2, market: 1, side: long_b, increase: false, collateral: 500_000_000_000, size: 0, unreachable_price: true, shift: true, nonce: [0x19; 32] },
     ];
-    let n_slots = if th { NSLOT } else { 5 };
+    let order_slots = if th { 7 } else { 5 };
     let mut acts = vec![];
-    for i in 0..n_slots {
+    let used: Vec<usize> = (0..order_slots).chain([7usize, 8]).collect();
+    for i in used {
         acts.extend([Act::Create(i), Act::Exec(i, Who::Keeper), Act::Close(i, Who::Owner)]);
         if props & P23 != 0 {
             acts.extend([Act::Exec(i, Who::Stranger), Act::Close(i, Who::Keeper), Act::Close(i, Who::Stranger)]);
